@@ -77,7 +77,7 @@ func (Implementation) Dgetf2(m, n int, a []float64, lda int, ipiv []int) (ok boo
 					bi.Dscal(m-j-1, 1/aj, a[(j+1)*lda+j:], lda)
 				} else {
 					for i := 0; i < m-j-1; i++ {
-						a[(j+1)*lda+j] = a[(j+1)*lda+j] / a[lda*j+j]
+						a[(j+1+i)*lda+j] = a[(j+1+i)*lda+j] / a[lda*j+j]
 					}
 				}
 			}
